@@ -45,8 +45,10 @@ def monitorTag (prop : String) (script : List Cmd) (obs : List Obs) : Option Str
     | "C07" => (MonResponder.monitorProbed script iters 0) <|> (MonResponder.monitorAnnounced script iters 0)
     | "C09" => MonResponder.monitorUnregister script iters 0
     | "C06" => (MonResponder.monitorAnswers script iters 0) <|> (MonResponder.monitorProbed script iters 0 true) <|>
-               (MonResponder.monitorKnownAnswers script iters 0) <|> (MonResponder.monitorAddressAnswers script iters 0)
-    | "C10" => MonResponder.monitorKnownAnswers script iters 0
+               (MonResponder.monitorKnownAnswers script iters 0) <|> (MonResponder.monitorAddressAnswers script iters 0) <|>
+               (MonResponder.monitorInstanceAnswers script iters 0)
+    | "C10" => (MonResponder.monitorKnownAnswers script iters 0) <|> (MonResponder.monitorInstanceAnswers script iters 0) <|>
+               (MonResponder.monitorAddressAnswers script iters 0)
     | "C20" => (MonClient.monitorC20 script iters 0) <|> (MonClient.monitorC20Unrequested script iters 0)
     | _ => none
 
